@@ -8,7 +8,7 @@ import tempfile
 
 from . import core
 
-NCASES = 16
+NCASES = 20
 
 
 def spec(compiler="g++"):
